@@ -77,9 +77,12 @@ var verifReleaseOnlyFields = map[string]map[string]bool{"FunctionNode": {"module
 var verifNodeIface = reflect.TypeOf((*Node)(nil)).Elem()
 
 type verifJunker struct {
-	r      *rand.Rand
+	r *rand.Rand
+	// strict: garbage also in the fields only the release functions clear
 	strict bool
-	n      int
+	// dirtyMaps: dirty maps also in the bare map pools of render.go
+	dirtyMaps bool
+	n         int
 }
 
 func (j *verifJunker) str(prefix string) string {
@@ -266,7 +269,7 @@ func (j *verifJunker) junkFor(p verifPool, proto interface{}) interface{} {
 		return s.Interface()
 	case reflect.Map:
 		m := j.value(t, 0, "").Interface()
-		if p.bareMap && !j.strict {
+		if p.bareMap && !j.dirtyMaps {
 			// a map that was used and emptied, which is all the release side ever puts here
 			mv := reflect.ValueOf(m)
 			for _, k := range mv.MapKeys() {
@@ -278,8 +281,8 @@ func (j *verifJunker) junkFor(p verifPool, proto interface{}) interface{} {
 	return nil
 }
 
-func verifPoison(seed int64, strict bool, perPool int) int {
-	j := &verifJunker{r: rand.New(rand.NewSource(seed)), strict: strict}
+func verifPoison(seed int64, strict, dirtyMaps bool, perPool int) int {
+	j := &verifJunker{r: rand.New(rand.NewSource(seed)), strict: strict, dirtyMaps: dirtyMaps}
 	n := 0
 	for _, p := range verifPools() {
 		if p.pool.New == nil {
@@ -298,10 +301,16 @@ func verifPoison(seed int64, strict bool, perPool int) int {
 }
 
 // VerifPoisonPools puts junk objects on top of every pool (see the file comment); returns how many.
-func VerifPoisonPools(seed int64) int { return verifPoison(seed, false, 3) }
+func VerifPoisonPools(seed int64) int { return verifPoison(seed, false, false, 3) }
 
 // VerifPoisonPoolsStrict also fills the fields and pools whose cleanliness the release side guarantees.
-func VerifPoisonPoolsStrict(seed int64) int { return verifPoison(seed, true, 3) }
+func VerifPoisonPoolsStrict(seed int64) int { return verifPoison(seed, true, true, 3) }
+
+// VerifPoisonPoolsWith chooses the two exceptions separately: garbage in the release-only fields, dirty maps in the
+// bare map pools.
+func VerifPoisonPoolsWith(seed int64, releaseOnlyFields, dirtyBareMaps bool) int {
+	return verifPoison(seed, releaseOnlyFields, dirtyBareMaps, 3)
+}
 
 func verifDrain(p *sync.Pool) []interface{} {
 	saved := p.New
